@@ -51,7 +51,7 @@ def containers(rng, name, blob, tier):
                                                                        mtime=1700000000)}, name + ".gz"))
     for lv in ([1, 9] if tier == "quick" else range(1, 10)):
         forms.append(("bz2-l%d" % lv, {name + ".bz2": gen.bz2_bytes(blob, lv)}, name + ".bz2"))
-    for preset, check in ([(0, lzma.CHECK_CRC32), (6, lzma.CHECK_CRC64), (6, lzma.CHECK_SHA256)] if tier == "quick" else
+    for preset, check in ([(0, lzma.CHECK_NONE), (0, lzma.CHECK_CRC32), (6, lzma.CHECK_CRC64), (6, lzma.CHECK_SHA256)] if tier == "quick" else
                           [(0, lzma.CHECK_NONE), (1, lzma.CHECK_CRC32), (6, lzma.CHECK_CRC64), (9, lzma.CHECK_SHA256), (1, lzma.CHECK_SHA256)]):
         # (the SHA-256 integrity check has its own label: the reader does not implement it -- recorded finding)
         forms.append(("%s-p%d-c%d" % ("xzsha256" if check == lzma.CHECK_SHA256 else "xz", preset, check),
